@@ -57,6 +57,11 @@ type EntryV2 = Entry
 
 // ToPlain converts a CBOR serializable identity signature to a plain IdentitySignature.
 func (c *IdentitySignature) ToPlain() (*identityprovider.IdentitySignature, error) {
+	if c == nil {
+		// the identity in the block has no (or a null) signatures field
+		return nil, errmsg.ErrIdentitySigDeserialization
+	}
+
 	publicKey, err := hex.DecodeString(c.PublicKey)
 	if err != nil {
 		return nil, errmsg.ErrIdentitySigDeserialization.Wrap(err)
